@@ -85,8 +85,9 @@ CHECKS['C04'] = dict(
     technique='CBMC function contracts on extracted real code and fragments (dfcc), SAT back end', design='4.3')
 CHECKS['C13'] = dict(
     text='Lemmas only. Deductive proof (CBMC contracts) on extracted real code: the on-demand block of TBProbe::tbProbe (fragment) with rule50Margin/updateEvScore stores an exact mate score only if the mate completes within the '
-         '100 - halfmove-clock plies left, otherwise score 0 with the matching bound type; swindleScore range and sign; probeDTM and notifyPV conversions.',
-    note=TRUST + 'Assumed: the scores delivered by tt.probeDTM have the form proved for the probeDTM tail. NOT decided: how bounds are merged into the search, root move choice, shortest-mate play, Syzygy/Gaviota paths.',
+         '100 - halfmove-clock plies left, otherwise score 0 with the matching bound type; the use of a probe result at a node of negaScout (two fragments): an exact distance-to-mate result always cuts with exactly that score, '
+         'a draw / frustrated result yields a non-mate score within the swindle range, a bound cuts only when it decides the window, and otherwise only narrows the window towards the bound; swindleScore range and sign; probeDTM and notifyPV conversions.',
+    note=TRUST + 'Assumed: the scores delivered by tt.probeDTM have the form proved for the probeDTM tail. NOT decided: the search below a narrowed window, root move choice (TBProbe::getSearchMoves), shortest-mate play, Syzygy/Gaviota paths.',
     technique='CBMC function contracts on extracted real code and fragments (dfcc), SAT back end', design='4.9')
 CHECKS['C18'] = dict(
     text='Deductive proof (CBMC contracts) on extracted real code: PolyglotBook::getMove is total for all 2^16 codes (squares on the board, promotion piece of the mover), getPGMove/getMove inverse incl. king-takes-rook castling, '
